@@ -416,16 +416,16 @@ theorem lstrip_unlines (pre : List Str) (z : Str)
   induction pre with
   | nil =>
     obtain ⟨c, t, rfl, hc⟩ := hz
-    exact ⟨[], by simp, by simp [lstrip, unlines, List.dropWhile, hc], Or.inl rfl⟩
+    exact ⟨[], by simp, by simp [lstrip, unlines, hc], Or.inl rfl⟩
   | cons p ps ih =>
     rcases hpre p (by simp) with e | ⟨c, t, e, hc⟩
     · subst e
       obtain ⟨pre', h1, h2, h3⟩ := ih (fun q hq => hpre q (List.mem_cons_of_mem _ hq))
       refine ⟨pre', fun q hq => List.mem_cons_of_mem _ (h1 q hq), ?_, h3⟩
       rw [← h2]
-      simp [lstrip, unlines, List.dropWhile, nl_isPySpace]
+      simp [lstrip, unlines, nl_isPySpace]
     · subst e
-      exact ⟨(c :: t) :: ps, fun q hq => hq, by simp [lstrip, unlines, List.dropWhile, hc], Or.inr ⟨c, t, ps, rfl⟩⟩
+      exact ⟨(c :: t) :: ps, fun q hq => hq, by simp [lstrip, unlines, hc], Or.inr ⟨c, t, ps, rfl⟩⟩
 
 theorem dropWhile_ne_nil_of_mem {p : Char → Bool} (s : Str) (h : ∃ x ∈ s, p x = false) : s.dropWhile p ≠ [] := by
   induction s with
@@ -677,14 +677,14 @@ theorem shellCopy_harmless (d : Bool) (src dst : Str) (h1 : '\n' ∉ src) (h2 : 
   cases d with
   | true =>
     have e : shellCopy true src dst = 'c' :: 'p' :: (" -r ".toList ++ shQuote src ++ ' ' :: shQuote dst) := by
-      simp [shellCopy]; rfl
+      simp [shellCopy]
     rw [e]
     refine ⟨?_, Or.inr ⟨'c', _, rfl, by decide, by decide⟩, by simp [parseDelim, not_prefix_cp]⟩
     simp only [List.mem_cons, List.mem_append, not_or]
     exact ⟨by decide, by decide, ⟨by decide, hq1⟩, by decide, hq2⟩
   | false =>
     have e : shellCopy false src dst = 'c' :: 'p' :: (" ".toList ++ shQuote src ++ ' ' :: shQuote dst) := by
-      simp [shellCopy]; rfl
+      simp [shellCopy]
     rw [e]
     refine ⟨?_, Or.inr ⟨'c', _, rfl, by decide, by decide⟩, by simp [parseDelim, not_prefix_cp]⟩
     simp only [List.mem_cons, List.mem_append, not_or]
@@ -698,7 +698,7 @@ theorem cdPart_harmless (t : Option Str) (ht : ∀ d, t = some d → '\n' ∉ d)
     simp only [cdPart, List.mem_singleton] at hp
     subst hp
     have e : shJoin ["cd".toList, d] = 'c' :: 'd' :: ' ' :: shQuote d := by
-      have : shQuote "cd".toList = "cd".toList := by decide
+      have : shQuote ['c', 'd'] = ['c', 'd'] := by decide
       simp [shJoin, joinSp, this]
     rw [e]
     refine ⟨?_, Or.inr ⟨'c', _, rfl, by decide, by decide⟩, by simp [parseDelim, not_prefix_cd]⟩
@@ -732,11 +732,11 @@ theorem renderUnstage_harmless (l : Leaf) (hl : leafOk l) (s : Str) (h : renderU
     · exact harmless_nil
     · exact shellCopy_harmless d _ _ hl.1 hl.2
   | fref f =>
-    unfold preprocessOutput at h
-    split at h
-    · simp only [renderUnstage, if_true, Option.some.injEq] at h
+    by_cases hc : (!f.isDir && decide (f.path ≠ ['-'])) = true
+    · simp only [preprocessOutput, hc, if_true, renderUnstage, Option.some.injEq] at h
       subst h; exact harmless_nil
-    · simp [renderUnstage] at h
+    · simp only [preprocessOutput, hc, renderUnstage] at h
+      cases h
   | other tag => simp [preprocessOutput, renderUnstage] at h
   | result => simp [preprocessOutput, renderUnstage] at h
 
